@@ -906,8 +906,10 @@ def finish(ctx, level="proof", prop_modules=(), explanation=None):
     ev = {"property_id": ctx.pid, "tier": ctx.tier, "seed": ctx.seed, "level": level,
           "coverage": cov, "assumptions": ctx.assumptions, "wall_s": round(time.time() - ctx.t0, 2),
           "violations": len(ctx.violations), "known_findings_seen": ctx.known_lines}
-    os.makedirs(os.path.join(VERIF, "evidence"), exist_ok=True)
-    with open(os.path.join(VERIF, "evidence", ctx.pid + ".json"), "w") as f:
+    # evidence/<id>.json describes runs against /repo itself; a run against a scratch copy (VERIF_REPO) writes next to it
+    evdir = os.path.join(VERIF, "evidence") if os.path.realpath(REPO) == "/repo" else os.path.join(VERIF, "evidence", "scratch")
+    os.makedirs(evdir, exist_ok=True)
+    with open(os.path.join(evdir, ctx.pid + ".json"), "w") as f:
         json.dump(ev, f, indent=1)
     for l in ctx.known_lines:
         print(l)
